@@ -63,6 +63,8 @@ class ExprMixin:
                 return T.sv_seq(ty.e, z3.IntVal(0), fresh("emptyat", z3.ArraySort(T.I, ty.e.sort())))
             if ty == T.TUP:
                 return T.scalar(T.TUP, TH.EMPTY_TUP)
+        if v.ty == T.EMPTYDICT and isinstance(ty, T.ObjMap):
+            return self.om_fresh(ty, "emptyobjmap", empty=True)
         if v.ty == T.EMPTYDICT:
             if ty == T.META:
                 return T.scalar(T.META, TH.EMPTY_META)
@@ -154,7 +156,7 @@ class ExprMixin:
             n = v.ty.card()(v.t)
             p.assume(n >= 0)
             return n
-        if isinstance(v.ty, T.Map):
+        if isinstance(v.ty, (T.Map, T.ObjMap)):
             n = T.Set(v.ty.k).card()(v.dom)
             p.assume(n >= 0)
             return n
@@ -172,7 +174,7 @@ class ExprMixin:
             if not self.spec_mode:
                 self._raise_if(p, c.is_none, "TypeError", "`in` on None")
             return self.member(x, c.val, p)
-        if isinstance(c.ty, T.Map):
+        if isinstance(c.ty, (T.Map, T.ObjMap)):
             return c.dom[self.coerce(x, c.ty.k).t]
         if c.ty == T.TUP:
             return TH.tmem(c.t, self.coerce(x, T.INT).t)
@@ -527,9 +529,17 @@ class ExprMixin:
         if isinstance(e.slice, ast.Slice):
             raise Unsupported("slice")
         key = self.ev(e.slice, p)
-        return self.subscript(base, key, p, f"line {getattr(e, 'lineno', '?')}")
+        r = self.subscript(base, key, p, f"line {getattr(e, 'lineno', '?')}")
+        if isinstance(base.ty, T.ObjMap) and isinstance(e.value, ast.Name) and not self.spec_mode:
+            r.ref = (e.value.id, self.coerce(key, base.ty.k).t)      # d[k] is a reference into d: mutating calls on it update d
+        return r
 
     def subscript(self, base, key, p, note):
+        if isinstance(base.ty, T.ObjMap):
+            k = self.coerce(key, base.ty.k)
+            if not self.spec_mode:
+                self._raise_if(p, z3.Not(base.dom[k.t]), "KeyError", note)
+            return self.om_get(base, k.t)
         if isinstance(base.ty, T.Map):
             k = self.coerce(key, base.ty.k)
             self._raise_if(p, z3.Not(base.dom[k.t]), "KeyError", note)
